@@ -141,6 +141,10 @@ ResCases == { [name |-> "residue-explicit-values", seq |-> TRUE, s |-> [ResSetup
                                       quant |-> <<0, 1, 2, 3, 4, 5, 6, 7, 8, 9, 10, 11>>],
                         !.books[4] = [dim |-> 2, entries |-> 7, ordered |-> 0, sparse |-> 1, lens |-> <<0, 1, 0, 2, 3, 0, 3>>, maptype |-> 1, qmin |-> PackedInt(-1), qdelta |-> PackedInt(1), qbits |-> 2, qseq |-> 0,
                                       quant |-> <<0, 1>>]]] : ch \in {1, 2}, rt \in {0, 1, 2}, sq \in {0, 1} } \cup
+            { [name |-> "residue-floor0", seq |-> FALSE,
+               s |-> [ResSetup(ch, 6, 7, rt, 8, ch = 2) EXCEPT !.floors = << [type |-> 0, order |-> ord, frate |-> 8000, bark |-> 16, ampbits |-> 4, ampdb |-> 100, fbooks |-> fb] >>],
+               fls |-> IF ch = 1 THEN << <<1>>, <<1>>, <<0>>, <<1>>, <<1>> >> ELSE << <<1, 1>>, <<1, 0>>, <<0, 1>>, <<0, 0>>, <<1, 1>> >>] :
+                ch \in {1, 2}, rt \in {0, 1, 2}, ord \in {1, 2, 5}, fb \in { <<2>>, <<3, 2>>, <<2, 3, 3>> } } \cup
             { [name |-> "residue-dim-not-dividing", seq |-> FALSE, s |-> [ResSetup(ch, 6, 7, rt, 8, FALSE) EXCEPT !.books[3] = Lattice(2, dd[1]), !.books[4] = VarBook(dd[2], 1)]] :
                 ch \in {1, 2}, rt \in {0, 1, 2}, dd \in {<<3, 5>>, <<100, 3>>, <<7, 1000>>, <<16, 12>>} } \cup
             { [name |-> "residue", seq |-> FALSE, s |-> ResSetup(ch, 6, e1, rt, ps, cp)] : ch \in {1, 2}, e1 \in {6, 7}, rt \in {0, 1, 2}, ps \in {4, 8}, cp \in {FALSE, TRUE} }
@@ -159,8 +163,8 @@ Ones(n) == [i \in 1..n |-> 1]
 \* the floor whose integer domain is probed is the one decoded last: that of the last channel, if it is in use
 LastFloor(s, mode) == s.floors[MapOf(s, mode).sfloor[SubmapOf(MapOf(s, mode), s.ch) + 1] + 1]
 FP(s, mode, lw, nw, salt, fl) == [W |-> s.modes[mode + 1].bf, ns |-> 1, f |-> FullPacket(s, mode, lw, nw, salt, fl),
-                                  fit |-> IF fl[s.ch] = 1 THEN Floor1Fit(s, LastFloor(s, mode), salt + s.ch) ELSE <<>>,
-                                  yc |-> IF fl[s.ch] = 1 THEN Floor1Curve(s, LastFloor(s, mode), salt + s.ch, HalfOf(s, mode)) ELSE <<>>,
+                                  fit |-> IF fl[s.ch] = 1 /\ LastFloor(s, mode).type = 1 THEN Floor1Fit(s, LastFloor(s, mode), salt + s.ch) ELSE <<>>,
+                                  yc |-> IF fl[s.ch] = 1 /\ LastFloor(s, mode).type = 1 THEN Floor1Curve(s, LastFloor(s, mode), salt + s.ch, HalfOf(s, mode)) ELSE <<>>,
                                   rv |-> PacketResidue(s, mode, salt, fl), cv |-> PacketSpectrum(s, mode, salt, fl)]
 WithCW(s0) == s0 @@ [cw |-> [b \in 1..Len(s0.books) |-> Codewords(s0.books[b].lens)]]
 FullAudio(s0, fls) == LET s == WithCW(s0) IN << FP(s, 0, 0, 0, 1, fls[1]), FP(s, 1, 0, 1, 2, fls[2]), FP(s, 1, 1, 0, 3, fls[3]), FP(s, 0, 0, 0, 4, fls[4]), FP(s, 0, 0, 0, 5, fls[5]) >>
